@@ -128,7 +128,8 @@ def write_real_tree(root, rnd):
     os.makedirs(os.path.join(sp, "pytest_cyc-1.0.dist-info"), exist_ok=True)
     fx = "import pytest\n\n@pytest.fixture\ndef %s():\n    return 1\n"
     open(os.path.join(sp, "pytest_cyc", "__init__.py"), "w").write("")
-    open(os.path.join(sp, "pytest_cyc", "plugin.py"), "w").write("from .helpers import *\n" + fx % "cyc_a")
+    open(os.path.join(sp, "pytest_cyc", "plugin.py"), "w").write('from .helpers import *\npytest_plugins = ["pytest_cyc.extra"]\n' + fx % "cyc_a")
+    open(os.path.join(sp, "pytest_cyc", "extra.py"), "w").write('pytest_plugins = ["pytest_cyc.plugin", "pytest_cyc.extra"]\n' + fx % "cyc_c")
     open(os.path.join(sp, "pytest_cyc", "helpers.py"), "w").write("from .plugin import *\nfrom .helpers import *\n" + fx % "cyc_b")
     open(os.path.join(sp, "pytest_cyc-1.0.dist-info", "entry_points.txt"), "w").write("[pytest11]\ncyc = pytest_cyc.plugin\n")
     os.makedirs(os.path.join(root, "plugcyc"), exist_ok=True)
